@@ -208,7 +208,11 @@ def rule_stream_switch(ctx):
     # guard (state == Fresh by then) lets the finished OLD run into the new stream's snapshot.
     gs = GuardStates(ti)
     bp = bool_param(ti)
-    for a_, b_ in gs.failed_edges:
+    tries = [bi for bi, t in ti.calls(lambda t: callee(t).endswith(GuardStates.TRY))]
+    if gs.failed_edges and not tries:
+        raise Inconclusive("a failed lock attempt without a try-lock call")
+    for a_ in tries:
+        # a lock attempt that can time out is only ever MADE when canceled == false (the cancelling phase blocks)
         conds = [(g[3], g[2]) for g in guards_of(ti, a_)]
         not_cancel = any(is_arg(e_, bp) and vals == [0] for e_, vals in conds)
         if not_cancel:
